@@ -318,6 +318,7 @@ pub enum Op {
     ClearLocks { i: usize },
     StoreMigration { i: usize, salt: u64, lo: u32, hi: u32, nfs: Vec<[u8; 32]> },
     CancelMigration { i: usize },
+    PruneQueueBelow { h: u32, retain: u8 },
 }
 
 impl Op {
@@ -341,6 +342,7 @@ impl Op {
             Op::ClearLocks { .. } => "clear_locked_outputs",
             Op::StoreMigration { .. } => "pool_migration.replace_migration",
             Op::CancelMigration { .. } => "pool_migration.cancel_migration",
+            Op::PruneQueueBelow { .. } => "prune_scan_queue_below",
         }
     }
 }
@@ -467,6 +469,16 @@ pub fn apply_op(conn: &mut Connection, rng: &mut ChaChaRng, env: &Env, op: &Op) 
         Op::ClearLocks { i } => {
             use zcash_client_backend::data_api::locking::OutputLockStore;
             d.clear_locked_outputs(env.accounts[*i]).map(|n| format!("cleared {n}")).map_err(|x| e(&x))
+        }
+        Op::PruneQueueBelow { h, retain } => {
+            let p = match retain {
+                0 => None,
+                1 => Some(ScanPriority::Historic),
+                2 => Some(ScanPriority::OpenAdjacent),
+                3 => Some(ScanPriority::FoundNote),
+                _ => Some(ScanPriority::Verify),
+            };
+            d.prune_scan_queue_below(BlockHeight::from_u32(*h), p).map(|n| format!("pruned {n}")).map_err(|x| e(&x))
         }
         Op::StoreMigration { .. } | Op::CancelMigration { .. } => unreachable!(),
     }
@@ -1179,7 +1191,7 @@ pub struct Atomic;
 fn pick_op(s: &mut WalletSim, ch: &mut Choices) -> Option<Op> {
     let tip = s.chain.tip();
     let base = s.cfg.base_height;
-    let k = ch.weighted("c02.op", &[30, 12, 8, 5, 4, 5, 6, 6, 8, 6, 6, 4, 6, 8, 4, 6, 8, 3]);
+    let k = ch.weighted("c02.op", &[30, 12, 8, 5, 4, 5, 6, 6, 8, 6, 6, 4, 6, 8, 4, 6, 8, 3, 7]);
     Some(match k {
         0 => {
             // a scan: suggested range, or arbitrary, possibly illegal (non-contiguous state is the wallet's problem)
@@ -1253,7 +1265,13 @@ fn pick_op(s: &mut WalletSim, ch: &mut Choices) -> Option<Op> {
             let maxs = s.scanned.iter().next_back().copied().unwrap_or(base + 1);
             Op::StoreMigration { i, salt: ch.u64("salt"), lo: maxs.saturating_sub(25).max(base + 1), hi: maxs.max(base + 1), nfs: orchard_nullifiers(&s.conn, s.accounts[i]) }
         }
-        _ => Op::CancelMigration { i: ch.idx("acct", s.accounts.len()) },
+        17 => Op::CancelMigration { i: ch.idx("acct", s.accounts.len()) },
+        _ => {
+            // anywhere from below the birthday to just above the chain tip, so that the region below the height
+            // holds several queue entries of different priorities most of the time
+            let h = base.saturating_sub(2) + ch.below("h", (tip - base + 5) as u64) as u32;
+            Op::PruneQueueBelow { h, retain: ch.below("retain", 5) as u8 }
+        }
     })
 }
 
@@ -1412,7 +1430,7 @@ impl Scenario for Atomic {
         "one run = one wallet state reached by a fault-free history, then 1-4 write operations, each swept: reference run on a copy, then the same operation on the original with SQLITE_INTERRUPT at sampled VM steps, a statement-level ABORT at sampled row writes (transaction stays open), a refused commit, crash images and second-connection snapshots taken from inside the writer's progress handler, the writer run from inside a reader's progress handler, and an un-faulted retry; evaluations counted in coverage.oracle_evaluations; non-trivial = a fault fired inside an operation; distinct = distinct hash of (journal mode, operation kinds, reference outcome, per-attempt outcome classes)"
     }
     fn components(&self) -> serde_json::Value {
-        json!({"zcash_client_sqlite write paths (put_blocks, truncate, tip update, account create/import/delete, subtree roots, address generation, UTXO, tx status, rescans) and bundled SQLite": "real",
+        json!({"zcash_client_sqlite write paths (put_blocks, truncate, tip update, account create/import/delete, subtree roots, address generation, UTXO, tx status, rescans, queue pruning, rewinds, output locks, stored pool migrations) and bundled SQLite": "real",
                "failure source": "simulator (progress handler, TEMP triggers, commit hook on the harness-owned connection)",
                "second connection / crash recovery": "real SQLite on copies of the real files"})
     }
